@@ -1,1 +1,68 @@
-// harnesses for c12
+//! C12, integer clause: "integer interpolation equals the real-valued result rounded to nearest (ties away from zero) for
+//! every pair of endpoints that the factor's float type represents exactly, including to<from on unsigned types and
+//! endpoints at the range limits".  Thin monomorphic wrappers around vek::ops::Lerp with Kani function contracts.
+use vek::ops::Lerp;
+
+/// exact real-valued lerp of 8-bit endpoints at a dyadic factor k/64, rounded half away from zero, in integer arithmetic:
+/// from + k*(to-from)/64  =  (64*from + k*(to-from)) / 64
+fn expect_i64(from: i64, to: i64, k: i64) -> i64 {
+    let num = 64 * from + k * (to - from);          // exact
+    let q = num.div_euclid(64);
+    let r = num.rem_euclid(64);                     // 0..63
+    // round half away from zero: r > 32 up; r == 32 -> away from zero (up if num > 0, down if num < 0 means q stays)
+    if r > 32 { q + 1 } else if r < 32 { q } else if num >= 0 { q + 1 } else { q }
+}
+
+macro_rules! lerp_int {
+    ($wrap:ident, $wrapp:ident, $h:ident, $hp:ident, $hend:ident, $T:ty, $F:ty) => {
+        // factor k/64 with k in 0..=64 is exactly representable in f32/f64, and so is every 8-bit endpoint
+        #[kani::requires(k <= 64)]
+        #[kani::ensures(|r: &$T| (*r as i64) == expect_i64(from as i64, to as i64, k as i64))]
+        fn $wrap(from: $T, to: $T, k: u8) -> $T { <$T as Lerp<$F>>::lerp_unclamped(from, to, (k as $F) / 64.0) }
+        // the precise formula has two float multiplications: CBMC needs the factor grid coarsened to quarters (bounded)
+        #[kani::requires(k <= 64 && k % 16 == 0)]
+        #[kani::ensures(|r: &$T| (*r as i64) == expect_i64(from as i64, to as i64, k as i64))]
+        fn $wrapp(from: $T, to: $T, k: u8) -> $T { <$T as Lerp<$F>>::lerp_unclamped_precise(from, to, (k as $F) / 64.0) }
+        #[kani::proof_for_contract($wrap)]
+        fn $h() { $wrap(kani::any(), kani::any(), kani::any()); }
+        #[kani::proof_for_contract($wrapp)]
+        fn $hp() { $wrapp(kani::any(), kani::any(), kani::any()); }
+        /// end points with a fully symbolic factor equal to 0.0 / 1.0, and the clamped form
+        #[kani::proof]
+        fn $hend() {
+            let from: $T = kani::any(); let to: $T = kani::any();
+            assert!(<$T as Lerp<$F>>::lerp_unclamped(from, to, 0.0) == from);
+            assert!(<$T as Lerp<$F>>::lerp_unclamped(from, to, 1.0) == to);
+            assert!(<$T as Lerp<$F>>::lerp(from, to, 2.0) == to);
+            assert!(<$T as Lerp<$F>>::lerp(from, to, -1.0) == from);
+            assert!(<&$T as Lerp<$F>>::lerp_unclamped(&from, &to, 1.0) == to);
+        }
+    };
+}
+
+lerp_int!(lerp_u8_f32, lerp_precise_u8_f32, c12_contract_lerp_u8_f32, c12_contract_lerp_precise_u8_f32, c12_lerp_endpoints_u8_f32, u8, f32);
+lerp_int!(lerp_i8_f32, lerp_precise_i8_f32, c12_contract_lerp_i8_f32, c12_contract_lerp_precise_i8_f32, c12_lerp_endpoints_i8_f32, i8, f32);
+lerp_int!(lerp_u8_f64, lerp_precise_u8_f64, c12_contract_lerp_u8_f64, c12_contract_lerp_precise_u8_f64, c12_lerp_endpoints_u8_f64, u8, f64);
+lerp_int!(lerp_i8_f64, lerp_precise_i8_f64, c12_contract_lerp_i8_f64, c12_contract_lerp_precise_i8_f64, c12_lerp_endpoints_i8_f64, i8, f64);
+
+/// range limits of wider types (exactly representable end points): no panic, end points hit
+#[kani::proof]
+fn c12_lerp_range_limits_i32_f64() {
+    let from: i32 = kani::any(); let to: i32 = kani::any();
+    assert!(<i32 as Lerp<f64>>::lerp_unclamped(from, to, 0.0) == from);
+    assert!(<i32 as Lerp<f64>>::lerp_unclamped(from, to, 1.0) == to);
+}
+#[kani::proof]
+fn c12_lerp_range_limits_u16_f32() {
+    let from: u16 = kani::any(); let to: u16 = kani::any();
+    assert!(<u16 as Lerp<f32>>::lerp_unclamped(from, to, 0.0) == from);
+    assert!(<u16 as Lerp<f32>>::lerp_unclamped(from, to, 1.0) == to);
+}
+
+/// vacuity guard: the contract precondition is satisfiable and the harness is live
+#[kani::proof]
+fn c12_guard_wrong_endpoint_fails() {
+    let from: u8 = kani::any(); let to: u8 = kani::any();
+    kani::assume(from != to);
+    assert!(<u8 as Lerp<f32>>::lerp_unclamped(from, to, 1.0) == from);
+}
